@@ -2,6 +2,7 @@ import Proofs.C01Mux
 import Proofs.C06Pipe
 import Proofs.C06Lock
 import Proofs.C06Exec
+import Proofs.C06Ctl
 /-!
 # C06 — every request ends exactly once; streams are never leaked (property theorems)
 
@@ -309,6 +310,59 @@ example : ∃ st, MuxExec.run (MuxExec.init 128)
 example : ∃ st, MuxExec.run (MuxExec.init 128)
     [.getStream 1 1, .addCall 1, .closeBegin true, .wrote 1, .closeDeliver 1, .closeFinish] = some st ∧
     st.pc 1 = .done .connErr ∧ st.ctxDone = true ∧ st.snap = [] := by
+  refine ⟨_, rfl, ?_, ?_, ?_⟩ <;> decide
+
+/-! ## controlConn.close() against the heartbeat loop (`Model/CtlBeat.lean`): close() sends on the unbuffered `quit`,
+    which only the heartbeat goroutine receives, and only in the select at the top of its loop. All schedules. -/
+
+/-- while close() is blocked in its send, the heartbeat goroutine is alive; in its select the handshake is enabled; and
+    anywhere else EVERY step it can take brings it nearer to that select (at most two steps away: a heartbeat in
+    flight that fails, then reconnect(), which returns at once when the state is closing) -/
+theorem C06_ctl_close_never_stuck (as : List CtlBeat.Act) (st : CtlBeat.St) (h : CtlBeat.run CtlBeat.init as = some st)
+    (hc : st.cl = .sending) :
+    (st.hb = .sel ∨ st.hb = .inflight ∨ st.hb = .reconn) ∧
+    (st.hb = .sel → (CtlBeat.step st .takeQuit).isSome = true) ∧
+    (st.hb ≠ .sel → (∃ a, CtlBeat.hbAct a = true ∧ (CtlBeat.step st a).isSome = true) ∧
+      ∀ a st', CtlBeat.hbAct a = true → CtlBeat.step st a = some st' → CtlBeat.toSel st'.hb < CtlBeat.toSel st.hb) := by
+  have inv := CtlBeat.inv_run as _ st CtlBeat.inv_init h
+  have hl := (inv.sending hc).1
+  refine ⟨hl, ?_, ?_⟩
+  · intro hs; simp [CtlBeat.step, hs, hc]
+  · intro hns
+    rcases hl with hl | hl | hl
+    · exact absurd hl hns
+    · refine ⟨⟨.beatOk, rfl, by simp [CtlBeat.step, hl]⟩, ?_⟩
+      intro a st' ha hst
+      cases a <;> simp [CtlBeat.hbAct] at ha <;> simp [CtlBeat.step, hl] at hst <;> subst hst <;> simp [CtlBeat.toSel, hl]
+    · refine ⟨⟨.reconnect, rfl, by simp [CtlBeat.step, hl]⟩, ?_⟩
+      intro a st' ha hst
+      cases a <;> simp [CtlBeat.hbAct] at ha <;> simp [CtlBeat.step, hl] at hst <;> subst hst <;> simp [CtlBeat.toSel, hl]
+
+/-- closing can always complete: from every reachable state in which close() is blocked in its send there is a
+    continuation of at most four steps after which close() has returned, the heartbeat goroutine has returned and the
+    control connection is closed -/
+theorem C06_ctl_close_returns (as : List CtlBeat.Act) (st : CtlBeat.St) (h : CtlBeat.run CtlBeat.init as = some st)
+    (hc : st.cl = .sending) :
+    ∃ bs st', bs.length ≤ 4 ∧ CtlBeat.run st bs = some st' ∧ st'.cl = .done ∧ st'.hb = .exited ∧ st'.connClosed = true := by
+  have inv := CtlBeat.inv_run as _ st CtlBeat.inv_init h
+  rcases (inv.sending hc).1 with hl | hl | hl
+  · exact ⟨[.takeQuit, .closeConn], { st with hb := .exited, cl := .done, connClosed := true }, by simp, by simp [CtlBeat.run, CtlBeat.step, hl, hc], rfl, rfl, rfl⟩
+  · exact ⟨[.beatOk, .takeQuit, .closeConn], { st with hb := .exited, cl := .done, connClosed := true }, by simp, by simp [CtlBeat.run, CtlBeat.step, hl, hc], rfl, rfl, rfl⟩
+  · exact ⟨[.reconnect, .takeQuit, .closeConn], { st with hb := .exited, cl := .done, connClosed := true }, by simp, by simp [CtlBeat.run, CtlBeat.step, hl, hc], rfl, rfl, rfl⟩
+
+/-- Counterexample for the heartbeat loop of seeded change C06-8 (`CtlBeat.stepEarlyReturn`: the goroutine returns at
+    `reconn` when the state is closing): close() arrives while a heartbeat is in flight, the heartbeat fails, the
+    goroutine leaves without taking the handshake - close() is blocked in its send and NOTHING can move any more. -/
+theorem C06_ctl_cex_early_return :
+    ∃ st, CtlBeat.runEarlyReturn CtlBeat.init [.hbStart, .timer, .closeCas, .beatFail, .reconnect] = some st ∧
+      st.cl = .sending ∧ st.hb = .exited ∧ st.connClosed = false ∧
+      ∀ a, CtlBeat.stepEarlyReturn st a = none := by
+  refine ⟨_, rfl, by decide, by decide, by decide, ?_⟩
+  intro a; cases a <;> decide
+
+/-- non-vacuity: the same history on the machine of the code that exists -/
+example : ∃ st, CtlBeat.run CtlBeat.init [.hbStart, .timer, .closeCas, .beatFail, .reconnect, .takeQuit, .closeConn] = some st ∧
+    st.cl = .done ∧ st.hb = .exited ∧ st.connClosed = true := by
   refine ⟨_, rfl, ?_, ?_, ?_⟩ <;> decide
 
 /-! ## Closing calls back into the owner: the lock discipline of hostConnPool (`Model/PoolLock.lean`)
